@@ -93,11 +93,12 @@ def witnesses(tier, seed):
                 if t == 'f32' and quick and n > 5 and n != 9:
                     continue
                 W.append(mk(t, n, strat))
-            for n in ([12, 16, 17, 33, 40, 65] if quick else [32, 33, 40, 64, 65, 79, 80]):
+            for n in ([12, 16, 17, 33, 40, 65] if quick else [12, 16, 17, 32, 33, 40, 64, 65]):
                 if t == 'f32' and quick and n != 17:
                     continue
                 W.append(mk(t, n, strat, band=1))
-                W.append(mk(t, n, strat, band='arrow')); W.append(mk(t, n, strat, band='arrow1')); W.append(mk(t, n, strat, band='hub'))
+                if quick or n <= 40 or t == 'f64':
+                    W.append(mk(t, n, strat, band='arrow')); W.append(mk(t, n, strat, band='arrow1')); W.append(mk(t, n, strat, band='hub'))
             for n in (1, 2, 3, 4, 5, 8, 9, 12, 16, 17):
                 W.append(mk_structure(t, n, strat))
     W += pivot_helper_witnesses(['recon_vec', 'recon_mat', 'apply_mat', 'apply_vec', 'recon2'], tier)
